@@ -563,3 +563,55 @@ func init() {
 		MinReach: []string{"end"}, TVVectors: 3,
 	})
 }
+
+func init() {
+	register(&Property{
+		ID: "C17", Dirs: []string{"root", "internal/ecolumn"},
+		Jobs: func(tier string) []Job {
+			jobs := []Job{{Harness: "VX_C17_bitset"}, {Harness: "VX_C17_toomany"}}
+			sizes := []int{3, 65, 129, 255}
+			if tier == "thorough" {
+				sizes = []int{1, 2, 3, 64, 65, 128, 129, 192, 193, 254, 255}
+			}
+			for _, K := range sizes {
+				consts := []int{0, K - 1}
+				for _, b := range []int{63, 64, 127, 128, 191, 192} {
+					if b < K-1 && b > 0 {
+						consts = append(consts, b)
+					}
+				}
+				for _, c := range consts {
+					for _, cmp := range []string{"<", "<=", ">", ">=", "=", "!="} {
+						if tier != "thorough" && c != 0 && c != K-1 && cmp != "<" && cmp != ">=" {
+							continue
+						}
+						jobs = append(jobs, Job{Harness: "VX_C17_order", Params: P("K", itoa(K), "const", itoa(c), "cmp", cmp)})
+					}
+				}
+				if K > 64 {
+					jobs = append(jobs, Job{Harness: "VX_C17_order", Params: P("K", itoa(K), "const", "63", "const2", "64", "cmp", "in")})
+				}
+				if K > 128 {
+					jobs = append(jobs, Job{Harness: "VX_C17_order", Params: P("K", itoa(K), "const", "127", "const2", "128", "cmp", "in")})
+				}
+				if K > 192 {
+					jobs = append(jobs, Job{Harness: "VX_C17_order", Params: P("K", itoa(K), "const", "0", "const2", "192", "cmp", "in")})
+				}
+				jobs = append(jobs, Job{Harness: "VX_C17_items", Params: P("K", itoa(K))})
+				if K <= 65 || tier == "thorough" {
+					jobs = append(jobs, Job{Harness: "VX_C17_undeclared", Params: P("K", itoa(K))})
+				}
+			}
+			for _, D := range []int{3, 253, 254, 255} {
+				jobs = append(jobs, Job{Harness: "VX_C17_derived", Params: P("D", itoa(D))})
+			}
+			return jobs
+		},
+		Bounds: func(tier string) string {
+			return "declared lists of size 3,65,129,255 (thorough: 1,2,3,64,65,128,129,192,193,254,255) and 256 (must fail), declared order opposite to the alphabet; two data cells with symbolic value index (all declared values) plus a null; constants at positions 0, K-1 and across the 64-bit word boundaries of the bitset; all six comparators, in-lists crossing word boundaries, Sort; undeclared 2-byte values symbolic; derived enums with 3/253/254/255 distinct values plus two symbolic (duplicate or fresh) cells; bitset set/isSet over all values and arbitrary prior contents"
+		},
+		Assume:   []string{"enum value names are 2-byte strings computed from the value index", "ReadCSV/ReadJSON construction paths: the enum factory code is shared (AppendByteString/AppendString); those entry points are exercised in C13/C14 harnesses on small value sets"},
+		Outside:  []string{"value names of other lengths; more than two symbolic data cells"},
+		MinReach: []string{"end", "end-toomany"}, TVVectors: 2, Solver: "z3-new -in",
+	})
+}
